@@ -1309,6 +1309,15 @@ func (e *symEnv) evalCall(call *ssa.Call) []*term {
 			}
 		}
 		return []*term{tOp("hasprefix", e.eval(cc.Args[0]), e.eval(cc.Args[1]))}
+	case "strings.CutPrefix":
+		// after, found := strings.CutPrefix(s, "("): the exclusive-bound marker test and the read
+		// without its first byte in one call
+		if k, ok := constString(cc.Args[1]); ok && k == "(" {
+			if _, a, isArg := argOf(e.eval(cc.Args[0])); isArg {
+				return []*term{tAlt(e.eval(cc.Args[0]), tOp("slice", e.eval(cc.Args[0]), tConst("0|1"), tConst("nil"))), wrapKind("excl", a)}
+			}
+		}
+		return []*term{tOp("cutprefix", e.eval(cc.Args[0]), e.eval(cc.Args[1])), tOp("hasprefix", e.eval(cc.Args[0]), e.eval(cc.Args[1]))}
 	case "strings.TrimPrefix":
 		// dropping the exclusive-bound marker: the read without its first byte, as str[1:]
 		if k, ok := constString(cc.Args[1]); ok && k == "(" {
